@@ -49,6 +49,8 @@ class Verifier(Calls):
         self.st = State()
         self.exit_kinds = {}
         self.no_typing = False
+        self.global_overrides = {}
+        self.static_dicts = {}
         self.keepalive = []
         self.assumed_reads = set()
         from .symex import isinstance_any
@@ -58,7 +60,10 @@ class Verifier(Calls):
     def sym_value(self, name, tag):
         kind, arg = parse_tag(tag)
         if kind in (None, "any", "val"):
-            return SV(z3.Const("p_" + name, Val), None if kind is None else tag)
+            t = z3.Const("p_" + name, Val)
+            # closed heap: an argument that is an object reference refers to an object that already exists
+            self.assume(z3.Implies(Val.is_ref(t), z3.And(Val.r(t) >= 0, Val.r(t) < self.comp("$alloc"))))
+            return SV(t, None if kind is None else tag)
         if kind == "int":
             return SV(Val.intv(z3.Const("p_" + name, I)), "int")
         if kind == "bool":
@@ -183,6 +188,8 @@ class Verifier(Calls):
         self.spec_mode = 0
         self.assumed_reads = set()
         self.keepalive = []
+        self.static_dicts = {}
+        self.global_overrides = {}
         self.fresh_objs = {}
         self.closures = {}
         self.global_cache = {}
@@ -226,13 +233,16 @@ class Verifier(Calls):
             self.context_vals = {}
             for nm, ex in c.context.items():
                 self.context_vals[nm] = self.spec_value(parse_expr(ex), entry)
+            self.spec_envs = [self.context_vals]       # contract context names are visible to invariants and callee contracts
+            entry_ctx = dict(entry)
+            entry_ctx.update(self.context_vals)
             for r in c.requires:
-                self.assume(self.spec_bool(parse_expr(r), entry))
+                self.assume(self.spec_bool(parse_expr(r), entry_ctx))
             if not self.check_sat():
                 raise PathEnd()
             self.cur_sigs = {}
             for fnd in getattr(self, "finding_specs", []):
-                self.cur_sigs[fnd["id"]] = self.spec_bool(parse_expr(fnd["signature"]), entry)
+                self.cur_sigs[fnd["id"]] = self.spec_bool(parse_expr(fnd["signature"]), entry_ctx)
             self.entry_pc = list(self.st.pc)
             outcome = ("normal", SV(Val.none, "none"))
             try:
